@@ -142,7 +142,9 @@ def run_shard(spec, tier, seed):
                 res.add('gates_never_read_in_a_solved_base', f'{year}|{g}')
                 continue
             nflip = 0
-            for p, ans, keys in bases[:3 if tier == 'quick' else 10]:
+            for p, ans, keys in (bases[:20] if witness else bases[:3 if tier == 'quick' else 10]):
+                if witness and nflip:
+                    break           # witness: every base is tried until the gate is reached once
                 for key in sorted(keys)[:2]:
                     ov = dict(ans)
                     ov[key] = 'yes' if aff else 'no'
